@@ -196,7 +196,7 @@ def _run_cases(chk, judge, exe, work):
         lines = [rp["case"]] if "case" in rp else []
         corpus = []
     else:
-        nwrap, ncip, ndrop = (1400, 150, 180) if chk.quick else (150000, 10000, 10000)
+        nwrap, ncip, ndrop = (4000, 400, 480) if chk.quick else (150000, 10000, 10000)
         lines = gen_wrap.make_cases(chk.seed * 9973 + 17, nwrap, ncip, ndrop)
         corpus = []
         cdir = os.path.join(common.VERIF, "corpus", "C17")
